@@ -208,6 +208,12 @@ class Builder:
 
         return VectorExpression([Constant(float(v)) for v in r[1]])
 
+    def _pvec(self, r):
+        """an expression vector whose elements are scalar Parameters only (no decision variables)"""
+        from optyx.core.vectors import VectorExpression
+
+        return VectorExpression([self.parameter(n) for n in r[1]])
+
     def _slice(self, r):
         return self.build(r[1])[slice(r[2], r[3], r[4])]
 
